@@ -19,7 +19,7 @@ def cases(seed, tier):
     out = []
     for k in range(n):
         r = random.Random(sch.np_seed(f"c12.{k}"))
-        c = wp.std_case(r, sch.np_seed(f"s{k}"), kinds=("gauss", "bimodal", "expedge", "hole", "corr"), scenarios=("plain", "plain", "crash_resume", "rerun", "resume_final", "load_only", "extra_samples", "like_raise"))
+        c = wp.std_case(r, sch.np_seed(f"s{k}"), kinds=("gauss", "bimodal", "expedge", "hole", "corr"), scenarios=("plain", "plain", "crash_resume", "rerun", "resume_final", "load_only", "extra_samples", "like_raise", "rewind"))
         out.append(c)
     # constructed checkpoints (tsim/constructed.py): a real resumed run whose last temperature step lands at a chosen beta*, mostly inside the
     # termination window (1-1e-4, 1): the run may then stop with beta < 1, and evidence() must still be the evidence at beta = 1
